@@ -9,6 +9,7 @@
      chain "none"    : [join]
      chain "discard" : [discard(match_fields), join]   -- class D events are discarded by action 0
      chain "break"   : [breaking action, join]         -- class B events get ActionBreak from action 0
+     chain "sel"     : [join with match_fields / do_if] -- class XO / XN events do not satisfy the join's selector
 
    together with the DECLARATIVE statement of the property: the stream's events are split uniquely
    into non-joined events and maximal runs (a start followed by continuations), a run is also closed by a time-out;
@@ -22,7 +23,9 @@
 
    Event classes: S1/C1 (S2/C2) = a string matching the start/continue pattern of template 1 (2);
    O = a string matching neither; NF = the field is absent; NS = the field is not a string (its
-   rendering matches no pattern); D / B = discarded / broken out by the action before the join.
+   rendering matches no pattern); D / B = discarded / broken out by the action before the join;
+   XO / XN = an event that does not satisfy the selector (match_fields / do_if) of the join itself, with a
+   field value matching neither pattern (XO) or without the field (XN).
    Sizes are counted in values: every value has the same length, max_event_size M is a number of
    values (the harness scales it to bytes).
 
@@ -30,7 +33,12 @@
      D5_TimeoutToLastAction : processEvent addresses a time-out to the action that returned last
                               (event.action = lastAction), not to the busy one.
      D15_BreakBypassesHold  : ActionBreak from an earlier action sends the event straight to the
-                              output although a later action is holding an older event of the stream. *)
+                              output although a later action is holding an older event of the stream.
+   Named mechanism (TRUE = what the code does; FALSE = mutant, Join_mutsel.cfg, must violate StatementOK):
+     M_BusyIgnoresSelector  : doActions evaluates an action's selector only while that action is NOT busy
+                              ("!p.busyActions[index] && !event.IsTimeoutKind()"): an action that is collecting a
+                              run is handed EVERY event of its stream, so a non-matching event ends the run like
+                              any other non-continuing event instead of overtaking the held one. *)
 EXTENDS Integers, Sequences, FiniteSets, TLC, Json
 
 CONSTANTS MaxLen1,        \* maximal sequence length, one template, chain "none"
@@ -39,7 +47,8 @@ CONSTANTS MaxLen1,        \* maximal sequence length, one template, chain "none"
           Ms,             \* candidate max_event_size values, in values (0 = unlimited)
           Pres,           \* chains explored, subset of {"none", "discard", "break"}
           D5_TimeoutToLastAction,
-          D15_BreakBypassesHold
+          D15_BreakBypassesHold,
+          M_BusyIgnoresSelector
 
 VARIABLES cs,             \* the case: [nt, neg, M, pre, seq]
           i,              \* events of the stream consumed so far
@@ -65,10 +74,13 @@ ClassesOf(nt, pre) == {"S1", "C1", "O", "NF", "NS"}
                       \cup (IF nt = 2 THEN {"S2", "C2"} ELSE {})
                       \cup (IF pre = "discard" THEN {"D"} ELSE {})
                       \cup (IF pre = "break" THEN {"B"} ELSE {})
+                      \cup (IF pre = "sel" THEN {"XO", "XN"} ELSE {})
+\* what the join sees when it is handed an event that does not satisfy its selector
+Content(c) == IF c = "XO" THEN "O" ELSE IF c = "XN" THEN "NF" ELSE c
 MaxLenOf(nt, pre) == IF pre # "none" THEN MaxLenPre ELSE IF nt = 2 THEN MaxLen2 ELSE MaxLen1
 SeqsOver(S, n) == UNION {[1..m -> S] : m \in 0..n}
 
-JI == IF cs.pre = "none" THEN 0 ELSE 1      \* index of the join in the chain
+JI == IF cs.pre \in {"none", "sel"} THEN 0 ELSE 1      \* index of the join in the chain
 
 -----------------------------------------------------------------------------
 (* ---------------- the declarative statement ---------------- *)
@@ -76,12 +88,13 @@ JI == IF cs.pre = "none" THEN 0 ELSE 1      \* index of the join in the chain
 \* positions of the events that are not removed by the discarding action, in order
 Vis(seq) == SelectSeq([k \in 1..Len(seq) |-> k], LAMBDA k : seq[k] # "D")
 
-\* does class c continue a run opened under template t?  (ns = "pattern": a non-string value is judged
-\* by its rendering, which matches no pattern; ns = "never": a non-string value never continues --
-\* the statement does not say which, both are accepted)
+\* does class c continue a run opened under template t?  (ns = "pattern": a non-string value, and the value of
+\* an event that does not satisfy the join's selector, is judged by its rendering, which matches no pattern;
+\* ns = "never": such an event never continues -- the statement does not say which, both are accepted.
+\* Without negate both readings agree: such an event is a non-continuing event and closes the run.)
 ContC(neg, t, c, ns) ==
-  /\ c \notin {"NF", "B", "S1", "S2"}
-  /\ IF c = "NS" /\ ns = "never" THEN FALSE ELSE ((c = CName(t)) # neg[t])
+  /\ c \notin {"NF", "B", "S1", "S2", "XN"}
+  /\ IF c \in {"NS", "XO"} /\ ns = "never" THEN FALSE ELSE ((c = CName(t)) # neg[t])
 
 TOBetween(T, p, q) == \E x \in T : p <= x /\ x < q
 
@@ -140,6 +153,7 @@ Init ==
          /\ nt = 2 => pre = "none" /\ ~(neg[1] /\ neg[2])      \* only one negating template exists
          /\ pre = "discard" => \E k \in 1..Len(seq) : seq[k] = "D"
          /\ pre = "break" => \E k \in 1..Len(seq) : seq[k] = "B"
+         /\ pre = "sel" => \E k \in 1..Len(seq) : seq[k] \in {"XO", "XN"}
          /\ cs = [nt |-> nt, neg |-> neg, M |-> M, pre |-> pre, seq |-> seq]
   /\ i = 0 /\ to = {} /\ toMis = {}
   /\ isJoining = FALSE /\ buff = <<>> /\ curT = 0
@@ -147,8 +161,11 @@ Init ==
   /\ out = <<>> /\ dev = {} /\ pc = "run"
 
 Ev == cs.seq[i + 1]
+EvC == Content(Ev)
 CanStep == pc = "run" /\ i < Len(cs.seq)
-ReachesJoin == Ev \notin {"D", "B"}
+\* "if !p.busyActions[index] && !event.IsTimeoutKind() { if !p.isMatch(index, event) { continue } }"
+SelSkips == Ev \in {"XO", "XN"} /\ ~(M_BusyIgnoresSelector /\ busy)
+ReachesJoin == Ev \notin {"D", "B"} /\ ~SelSkips
 
 \* flush(): field := string(buff); controller.Propagate(initial)  (Propagate resets busyActions[join])
 Flushed(o) == Append(o, [k |-> "j", ids |-> buff])
@@ -178,9 +195,17 @@ PreBreak ==
             /\ UNCHANGED dev
   /\ UNCHANGED <<cs, to, toMis, buff, curT, pc>>
 
+(* the join's selector does not match and is evaluated: the action is skipped, the event has passed all
+   actions (doActions returns (true, l-1)) and goes to the output; the join's state is untouched *)
+SelNotMatched ==
+  /\ CanStep /\ SelSkips
+  /\ out' = Passed(out)
+  /\ i' = i + 1 /\ lastAction' = JI /\ blocked' = FALSE
+  /\ UNCHANGED <<cs, to, toMis, isJoining, buff, curT, busy, dev, pc>>
+
 (* join.Do, "node == nil": flush if joining, ActionPass *)
 DoNoField ==
-  /\ CanStep /\ Ev = "NF"
+  /\ CanStep /\ ReachesJoin /\ EvC = "NF"
   /\ out' = Passed(IF isJoining THEN Flushed(out) ELSE out)
   /\ isJoining' = FALSE /\ busy' = FALSE /\ blocked' = FALSE /\ lastAction' = JI
   /\ i' = i + 1
@@ -197,8 +222,8 @@ DoStart ==
 
 (* join.Do, joining and isNextOK: append unless len(buff) >= max_event_size, ActionCollapse *)
 DoContinue ==
-  /\ CanStep /\ ReachesJoin /\ Ev \notin StartCls /\ Ev # "NF"
-  /\ isJoining /\ NextOK(Ev)
+  /\ CanStep /\ ReachesJoin /\ Ev \notin StartCls /\ EvC # "NF"
+  /\ isJoining /\ NextOK(EvC)
   /\ buff' = IF cs.M = 0 \/ Len(buff) < cs.M THEN Append(buff, i + 1) ELSE buff
   /\ blocked' = TRUE /\ lastAction' = JI
   /\ i' = i + 1
@@ -206,8 +231,8 @@ DoContinue ==
 
 (* join.Do, otherwise: flush if joining, ActionPass *)
 DoOther ==
-  /\ CanStep /\ ReachesJoin /\ Ev \notin StartCls /\ Ev # "NF"
-  /\ ~(isJoining /\ NextOK(Ev))
+  /\ CanStep /\ ReachesJoin /\ Ev \notin StartCls /\ EvC # "NF"
+  /\ ~(isJoining /\ NextOK(EvC))
   /\ out' = Passed(IF isJoining THEN Flushed(out) ELSE out)
   /\ isJoining' = FALSE /\ busy' = FALSE /\ blocked' = FALSE /\ lastAction' = JI
   /\ i' = i + 1
@@ -235,7 +260,7 @@ Finish ==
   /\ pc' = "done"
   /\ UNCHANGED <<cs, i, to, toMis, isJoining, buff, curT, busy, blocked, lastAction, out, dev>>
 
-Next == PreDiscard \/ PreBreak \/ DoNoField \/ DoStart \/ DoContinue \/ DoOther \/ Timeout \/ Finish
+Next == PreDiscard \/ PreBreak \/ SelNotMatched \/ DoNoField \/ DoStart \/ DoContinue \/ DoOther \/ Timeout \/ Finish
 
 Spec == Init /\ [][Next]_vars
 
